@@ -6,6 +6,7 @@ import SqiProofs.QuatContains
 import SqiProofs.QuatLatMul
 import SqiProofs.QuatIndex
 import SqiProofs.QuatDual
+import SqiGen.QuatAlg
 /- C14 — "Quaternion algebra and lattice arithmetic is exact and canonical".
    Property theorems about the hand model `SqiModel.Quat` (tie H: the model's executable definitions are run
    against the C functions of algebra.c / dim4.c / lattice.c on every check run by tools/props/c14.py).
@@ -56,6 +57,34 @@ theorem quat_alg_equal_denom_exact (p : ℤ) (a b : Elem) (ha : a.denom ≠ 0) (
 
 theorem quat_alg_normalize_exact (p : ℤ) (x : Elem) (hx : x.denom ≠ 0) :
     val p (algNormalize x) = val p x ∧ 0 < (algNormalize x).denom := algNormalize_val p x hx
+
+/-! ### tie T: the coordinate formula re-extracted from algebra.c on every run -/
+
+/-- the `ibz_*` straight-line body of `quat_alg_mul` as translated from the current C text computes the model's
+    (hence Mathlib's) product — a changed sign/term in the C formula breaks this proof at `lake build` -/
+theorem quat_alg_mul_translated (p : ℤ) (a b : Elem) :
+    SqiGen.QuatAlg.quat_alg_mul p a.denom a.coord.x0 a.coord.x1 a.coord.x2 a.coord.x3
+        b.denom b.coord.x0 b.coord.x1 b.coord.x2 b.coord.x3 =
+      ((algMul p a b).denom, (algMul p a b).coord.x0, (algMul p a b).coord.x1, (algMul p a b).coord.x2,
+        (algMul p a b).coord.x3) := by
+  unfold SqiGen.QuatAlg.quat_alg_mul algMul mulCoord
+  refine Prod.ext ?_ (Prod.ext ?_ (Prod.ext ?_ (Prod.ext ?_ ?_))) <;> (try dsimp only) <;> ring
+
+theorem quat_alg_conj_translated (x : Elem) :
+    SqiGen.QuatAlg.quat_alg_conj x.denom x.coord.x0 x.coord.x1 x.coord.x2 x.coord.x3 =
+      ((algConj x).denom, (algConj x).coord.x0, (algConj x).coord.x1, (algConj x).coord.x2, (algConj x).coord.x3) := by
+  unfold SqiGen.QuatAlg.quat_alg_conj algConj
+  refine Prod.ext ?_ (Prod.ext ?_ (Prod.ext ?_ (Prod.ext ?_ ?_))) <;> (try dsimp only) <;> ring
+
+/-- consequently the translated C formula is multiplication in `H p` -/
+theorem quat_alg_mul_translated_exact (p : ℤ) (a b : Elem) (ha : a.denom ≠ 0) (hb : b.denom ≠ 0) :
+    let r := SqiGen.QuatAlg.quat_alg_mul p a.denom a.coord.x0 a.coord.x1 a.coord.x2 a.coord.x3
+        b.denom b.coord.x0 b.coord.x1 b.coord.x2 b.coord.x3
+    val p ⟨r.1, ⟨r.2.1, r.2.2.1, r.2.2.2.1, r.2.2.2.2⟩⟩ = val p a * val p b := by
+  intro r
+  have h : r = _ := quat_alg_mul_translated p a b
+  rw [h]
+  exact algMul_val p a b ha hb
 
 /-! ## dim4.c -/
 
